@@ -41,6 +41,8 @@ type Program struct {
 	AllFuncs  []*ssa.Function // every source function, helpers included
 	NumInstrs int
 
+	Cloned []string // helpers with several call sites that were cloned per call site (clone.go)
+
 	callers map[*ssa.Function]*callerInfo
 	transp  map[*ssa.Function]bool
 
@@ -70,34 +72,55 @@ func loadProgram(dir, goos, goarch string, useVTA bool) (*Program, error) {
 	if goarch != "" {
 		filtered = append(filtered, "GOARCH="+goarch)
 	}
-	cfg := &packages.Config{
-		Mode:  packages.LoadAllSyntax | packages.NeedModule,
-		Dir:   dir,
-		Env:   filtered,
-		Tests: false,
-	}
-	pkgs, err := packages.Load(cfg, ".")
-	if err != nil {
-		return nil, fmt.Errorf("packages.Load: %w", err)
-	}
-	if len(pkgs) != 1 {
-		return nil, fmt.Errorf("expected exactly 1 root package, got %d", len(pkgs))
-	}
-	root := pkgs[0]
-	var errs []string
-	packages.Visit(pkgs, nil, func(p *packages.Package) {
-		for _, e := range p.Errors {
-			errs = append(errs, e.Error())
+	var overlay map[string][]byte
+	var cloned []string
+	var pkgs []*packages.Package
+	var root *packages.Package
+	for round := 0; ; round++ {
+		cfg := &packages.Config{
+			Mode:    packages.LoadAllSyntax | packages.NeedModule,
+			Dir:     dir,
+			Env:     filtered,
+			Tests:   false,
+			Overlay: overlay,
 		}
-	})
-	if len(errs) > 0 {
-		return nil, fmt.Errorf("load/type errors: %s", strings.Join(errs, "; "))
-	}
-	if root.PkgPath != rapidPath {
-		return nil, fmt.Errorf("root package is %q, want %q", root.PkgPath, rapidPath)
-	}
-	if root.Types == nil || root.TypesInfo == nil || len(root.Syntax) == 0 {
-		return nil, fmt.Errorf("root package has no type information / syntax")
+		var err error
+		pkgs, err = packages.Load(cfg, ".")
+		if err != nil {
+			return nil, fmt.Errorf("packages.Load: %w", err)
+		}
+		if len(pkgs) != 1 {
+			return nil, fmt.Errorf("expected exactly 1 root package, got %d", len(pkgs))
+		}
+		root = pkgs[0]
+		var errs []string
+		packages.Visit(pkgs, nil, func(p *packages.Package) {
+			for _, e := range p.Errors {
+				errs = append(errs, e.Error())
+			}
+		})
+		if len(errs) > 0 {
+			if round > 0 {
+				return nil, fmt.Errorf("load/type errors after cloning %v: %s", cloned, strings.Join(errs, "; "))
+			}
+			return nil, fmt.Errorf("load/type errors: %s", strings.Join(errs, "; "))
+		}
+		if root.PkgPath != rapidPath {
+			return nil, fmt.Errorf("root package is %q, want %q", root.PkgPath, rapidPath)
+		}
+		if root.Types == nil || root.TypesInfo == nil || len(root.Syntax) == 0 {
+			return nil, fmt.Errorf("root package has no type information / syntax")
+		}
+		if round >= 3 {
+			break
+		}
+		// helpers shared by several call sites get one copy per call site (clone.go)
+		next, names := cloneOverlay(root, overlay)
+		if next == nil {
+			break
+		}
+		overlay = next
+		cloned = append(cloned, names...)
 	}
 
 	prog, spkgs := ssautil.AllPackages(pkgs, ssa.BuilderMode(0))
@@ -118,6 +141,7 @@ func loadProgram(dir, goos, goarch string, useVTA bool) (*Program, error) {
 		Prog: prog, SPkg: spkg,
 		Funcs:  map[string]*ssa.Function{},
 		useVTA: useVTA,
+		Cloned: cloned,
 		cells:  map[*ssa.Alloc]*cellInfo{},
 		binds:  map[*ssa.FreeVar]ssa.Value{},
 		transp: map[*ssa.Function]bool{},
